@@ -275,11 +275,11 @@ rc5_inst!(u32, U16, U16, m=w32, o=orc32, u=4, t=34, c=4, b=16, unw=104;
 rc5_inst!(u64, U24, U24, m=w64, o=orc64, u=8, t=50, c=3, b=24, unw=152;
     t64_24_24_ks, t64_24_24_enc, t64_24_24_dec, t64_24_24_rt1, t64_24_24_rt2, t64_24_24_api_enc, t64_24_24_api_dec);
 // RC5-128/28/32: RC5<u128, U28, U32>  (t = 58, c = 2)
-// @ob name=t128_28_32_ks tier=thorough timeout=3600 props=C10,C20 kind=contract uses=c_word_u8,c_word_u16,c_word_u32,c_word_u64,c_word_u128 fn=rc5::RC5::substitute_key,rc5::RC5::key_into_words,rc5::RC5::initialize_expanded_key_table,rc5::RC5::mix_in note="RC5-128/28/32"
+// (did not discharge within 3600 s in the thorough-tier run of 2026-10-04 (10 solvers in parallel): unregistered) @-ob name=t128_28_32_ks tier=thorough timeout=3600 props=C10,C20 kind=contract uses=c_word_u8,c_word_u16,c_word_u32,c_word_u64,c_word_u128 fn=rc5::RC5::substitute_key,rc5::RC5::key_into_words,rc5::RC5::initialize_expanded_key_table,rc5::RC5::mix_in note="RC5-128/28/32"
 // (did not discharge within 3600 s in the thorough-tier run of 2026-10-04 (10 solvers in parallel): unregistered) @-ob name=t128_28_32_enc tier=thorough timeout=3600 props=C10,C20 kind=contract fn=rc5::RC5::encrypt_block,rc5::RC5::words_from_block,rc5::RC5::block_from_words note="RC5-128/28/32"
 // @ob name=t128_28_32_dec tier=thorough timeout=3600 props=C10,C20 kind=contract fn=rc5::RC5::decrypt_block,rc5::RC5::words_from_block,rc5::RC5::block_from_words note="RC5-128/28/32"
 // (did not discharge within 3600 s in the thorough-tier run of 2026-10-04 (10 solvers in parallel): unregistered) @-ob name=t128_28_32_rt1 tier=thorough timeout=3600 props=C01 kind=contract fn=rc5::RC5::encrypt_block,rc5::RC5::decrypt_block note="RC5-128/28/32"
-// @ob name=t128_28_32_rt2 tier=thorough timeout=3600 props=C01 kind=contract fn=rc5::RC5::encrypt_block,rc5::RC5::decrypt_block note="RC5-128/28/32"
+// (did not discharge within 3600 s in the thorough-tier run of 2026-10-04 (10 solvers in parallel): unregistered) @-ob name=t128_28_32_rt2 tier=thorough timeout=3600 props=C01 kind=contract fn=rc5::RC5::encrypt_block,rc5::RC5::decrypt_block note="RC5-128/28/32"
 // (not verified within this round: unregistered) @-ob name=t128_28_32_api_enc props=C10,C20 kind=contract tier=thorough uses=c_word_u8,c_word_u16,c_word_u32,c_word_u64,c_word_u128 fn=rc5::RC5::new,rc5::RC5::encrypt_block timeout=3600 note="RC5-128/28/32"
 // (not verified within this round: unregistered) @-ob name=t128_28_32_api_dec props=C10,C20 kind=contract tier=thorough uses=c_word_u8,c_word_u16,c_word_u32,c_word_u64,c_word_u128 fn=rc5::RC5::new,rc5::RC5::decrypt_block timeout=3600 note="RC5-128/28/32"
 rc5_inst!(u128, U28, U32, m=w128, o=orc128, u=16, t=58, c=2, b=32, unw=176;
@@ -564,6 +564,6 @@ rc5_api!(u32, U12, U16, u=4, t=26, b=16, unw=80; k_32_12_16_keylen, k_32_12_16_s
 rc5_api!(u8, U12, U4, u=1, t=26, b=4, unw=80; k_8_12_4_keylen, k_8_12_4_same, m_8_12_4_blocks, z_8_12_4);
 // (times out at 300 s: unregistered) @-ob name=k_128_28_32_keylen props=C11 kind=bounded bound="slice length <= 300" fn=rc5::RC5::new_from_slice timeout=300 note="RC5-128/28/32"
 // (times out at 300 s: unregistered) @-ob name=k_128_28_32_same props=C11,C12,C13 kind=contract fn=rc5::RC5::new_from_slice,rc5::RC5::new,rc5::RC5::clone,rc5::RC5::weak_key_test,rc5::RC5::new_checked timeout=300 note="RC5-128/28/32"
-// @ob name=m_128_28_32_blocks tier=thorough timeout=3600 props=C04,C15 kind=bounded bound="n in {0, 1, 3} blocks (ParBlocksSize = 1)" fn=rc5::RC5::encrypt_with_backend,rc5::RC5::encrypt_block note="RC5-128/28/32"
+// (did not discharge within 3600 s in the thorough-tier run of 2026-10-04 (10 solvers in parallel): unregistered) @-ob name=m_128_28_32_blocks tier=thorough timeout=3600 props=C04,C15 kind=bounded bound="n in {0, 1, 3} blocks (ParBlocksSize = 1)" fn=rc5::RC5::encrypt_with_backend,rc5::RC5::encrypt_block note="RC5-128/28/32"
 // @ob name=z_128_28_32 props=C16 cfg=zeroize kind=contract fn=rc5::RC5::drop,rc5::RC5::clone timeout=300 note="RC5-128/28/32"
 rc5_api!(u128, U28, U32, u=16, t=58, b=32, unw=180; k_128_28_32_keylen, k_128_28_32_same, m_128_28_32_blocks, z_128_28_32);
